@@ -10,7 +10,7 @@
    [print] is exact; the [*_view] functions give what the parsed Lark tree CONTAINS after the code's
    rewrites (integers as values, negative coefficients, default style, N+1 instances); the views are
    what the harness compares with the real parsers. *)
-From Coq Require Import String Ascii List Bool Arith NArith ZArith.
+From Coq Require Import String Ascii List Bool Arith NArith ZArith Uint63.
 Require Import TV.Model.Lex TV.Model.Show.
 Import ListNotations.
 Open Scope string_scope.
@@ -354,9 +354,32 @@ Definition run_rt (s : string) : string := show_opt view_rt (parse_rt s).
 Definition run_st (s : string) : string := show_opt view_st (parse_st s).
 Definition run_lv (s : string) : string := show_opt view_lv (parse_lv s).
 
-(* generated cases: the harness also hands over the generating tree and the blank strings it used, so that the
-   kernel confirms the string given to the real parser IS [print a ws] of a well-formed tree (i.e. lies in the
-   domain of the parse_print theorems).  Gaps are written with the letters s (blank) and t (tab), "|"-separated. *)
+(* input strings of the harness, packed 7 bytes per primitive integer (bits 56..58 = how many bytes the word
+   holds): coqc reads integer literals natively, string literals go through a Gallina conversion and are
+   ~40x slower to read.  Only the harness entry points use this; no theorem depends on primitive integers. *)
+Definition ascii_of_int (w : PrimInt63.int) : ascii :=
+  Ascii (Uint63.bit w 0) (Uint63.bit w 1) (Uint63.bit w 2) (Uint63.bit w 3)
+        (Uint63.bit w 4) (Uint63.bit w 5) (Uint63.bit w 6) (Uint63.bit w 7).
+Fixpoint unpack_bytes (k : nat) (w : PrimInt63.int) : string :=
+  match k with
+  | O => EmptyString
+  | S k' => String (ascii_of_int w) (unpack_bytes k' (PrimInt63.lsr w 8))
+  end.
+Definition count_of (w : PrimInt63.int) : nat :=
+  let c := PrimInt63.lsr w 56 in
+  if PrimInt63.eqb c 1 then 1 else if PrimInt63.eqb c 2 then 2 else if PrimInt63.eqb c 3 then 3
+  else if PrimInt63.eqb c 4 then 4 else if PrimInt63.eqb c 5 then 5 else if PrimInt63.eqb c 6 then 6
+  else if PrimInt63.eqb c 7 then 7 else 0.
+Fixpoint up (ws : list PrimInt63.int) : string :=
+  match ws with
+  | [] => EmptyString
+  | w :: r => unpack_bytes (count_of w) w ++ up r
+  end.
+
+(* generated cases: besides the string s given to the real parser the harness hands over the compact writing s0
+   of the generating tree (no blanks) and the blank strings ws it inserted (letters s = blank, t = tab,
+   "|"-separated).  The kernel confirms that s0 parses (in the model) to a well-formed tree a and that
+   s = print a ws with ws blank, i.e. that s lies in the domain of the parse_print theorems. *)
 Definition sc (n : nat) : string := String (ascii_of_nat n) EmptyString.
 Fixpoint decode_ws_aux (cur : string) (s : string) : list string :=
   match s with
@@ -367,12 +390,16 @@ Fixpoint decode_ws_aux (cur : string) (s : string) : list string :=
   end.
 Definition decode_ws (s : string) : list string := decode_ws_aux EmptyString s.
 
-Definition chk {A : Type} (pr : A -> list string -> string) (wf : A -> bool) (run : string -> string)
-           (a : A) (ws : string) (s : string) : string :=
-  (if String.eqb (pr a (decode_ws ws)) s then "P" else "p") ++ (if wf a then "W" else "w")
-  ++ (if blanks (decode_ws ws) then "B" else "b") ++ "|" ++ run s.
-Definition chk_eq := chk print_eq wf_einsum run_eq.
-Definition chk_dir := chk print_dir wf_dir run_dir.
-Definition chk_rt := chk print_rt wf_rt run_rt.
-Definition chk_st := chk print_st wf_st run_st.
-Definition chk_lv := chk print_lv wf_lv run_lv.
+Definition chk {A : Type} (parse : string -> option A) (pr : A -> list string -> string) (wf : A -> bool)
+           (run : string -> string) (s0 ws s : string) : string :=
+  match parse s0 with
+  | Some a =>
+      (if String.eqb (pr a (decode_ws ws)) s then "P" else "p") ++ (if wf a then "W" else "w")
+      ++ (if blanks (decode_ws ws) then "B" else "b")
+  | None => "n"
+  end ++ "|" ++ run s.
+Definition chk_eq := chk parse_eq print_eq wf_einsum run_eq.
+Definition chk_dir := chk parse_dir print_dir wf_dir run_dir.
+Definition chk_rt := chk parse_rt print_rt wf_rt run_rt.
+Definition chk_st := chk parse_st print_st wf_st run_st.
+Definition chk_lv := chk parse_lv print_lv wf_lv run_lv.
